@@ -119,7 +119,7 @@ pub fn decode_serve(data: &[u8]) -> Option<c13::Case> {
         }
         headers.push((name.to_string(), Bs(v.to_vec())));
     }
-    let req = ReqSpec { method, headers };
+    let req = ReqSpec { method, headers, version: (m % 13) % 5 };
     req.build()?;
     Some(c13::Case { ent, req, malformed: 1 })
 }
